@@ -6,6 +6,7 @@ import itertools
 import math
 
 from vf.combi import digits
+from vf.guard import call as gcall, too_many_hangs
 from vf.core import Job, new_result, viol
 from vf.guard import guarded
 
@@ -116,7 +117,7 @@ def run_structural(r, universe_n, adj, declared, kcore_too=True):
         if nontrivial:
             r["nontrivial"] += 1
         try:
-            res = fn()
+            res = gcall(fn)
         except Exception as ex:  # noqa: BLE001
             r["outcomes"][fname + ":raised"] += 1
             r["violations"].append(viol(fname, "raised", wit, f"{fname}(nodes={nodes}, adj={adj}): {type(ex).__name__}: {ex}"))
@@ -189,7 +190,7 @@ def _simple_chunk(params, lo, hi):
                 adj[v].append(u)
         adj = [sorted(a, reverse=bool(desc)) for a in adj]
         run_structural(r, n, adj, perms[pi], kcore_too=(desc == 0))
-        if len(r["violations"]) >= 40:
+        if len(r["violations"]) >= 40 or too_many_hangs():
             r["capped"] = True
             break
     return r
@@ -212,7 +213,7 @@ def _asym_chunk(params, lo, hi):
             if d in (2, 3):
                 adj[v].append(u)
         run_structural(r, n, adj, perms[pi])
-        if len(r["violations"]) >= 40:
+        if len(r["violations"]) >= 40 or too_many_hangs():
             r["capped"] = True
             break
     return r
@@ -228,7 +229,7 @@ def _seq_chunk(params, lo, hi):
         ds = digits(idx, len(seqs), 3)
         adj = [list(seqs[d]) for d in ds]
         run_structural(r, 3, adj, (0, 1, 2))
-        if len(r["violations"]) >= 40:
+        if len(r["violations"]) >= 40 or too_many_hangs():
             r["capped"] = True
             break
     return r
@@ -250,7 +251,7 @@ def _outside_chunk(params, lo, hi):
                 adj[u].append(v)
                 adj[v].append(u)
         run_structural(r, 4, adj, decl)
-        if len(r["violations"]) >= 40:
+        if len(r["violations"]) >= 40 or too_many_hangs():
             r["capped"] = True
             break
     return r
@@ -267,9 +268,9 @@ def judge_pagerank(nodes, adj, damping, max_iter=100, tol=1e-6, edges_variant=Fa
     try:
         if edges_variant:
             el = [(u, v) for u in nodes for v in adj[u]]
-            res = pagerank_edges(n, el, damping=damping, max_iter=max_iter, tol=tol, backend="python")
+            res = gcall(lambda: pagerank_edges(n, el, damping=damping, max_iter=max_iter, tol=tol, backend="python"))
         else:
-            res = pagerank(list(nodes), lambda v: adj[v], damping=damping, max_iter=max_iter, tol=tol)
+            res = gcall(lambda: pagerank(list(nodes), lambda v: adj[v], damping=damping, max_iter=max_iter, tol=tol))
     except Exception as ex:  # noqa: BLE001
         return [("raised", f"{type(ex).__name__}: {ex}")], "raised", False
     p = res.solution
@@ -324,7 +325,7 @@ def _pr_chunk(params, lo, hi):
                 r["violations"].append(viol("pagerank", kind, wit, f"pagerank{'_edges' if ev else ''}(adj={adj}, damping={d}): {detail}"))
         if not r["samples"]:
             r["samples"].append({"function": "pagerank", "adj": adj, "damping": d})
-        if len(r["violations"]) >= 40:
+        if len(r["violations"]) >= 40 or too_many_hangs():
             r["capped"] = True
             break
     return r
@@ -349,7 +350,7 @@ def _pr_seq_chunk(params, lo, hi):
         wit = {"nodes": list(nodes), "adj": adj, "damping": d, "max_iter": mi}
         for kind, detail in errs:
             r["violations"].append(viol("pagerank", kind, wit, f"pagerank(nodes={nodes}, adj={adj}, damping={d}, max_iter={mi}): {detail}"))
-        if len(r["violations"]) >= 40:
+        if len(r["violations"]) >= 40 or too_many_hangs():
             r["capped"] = True
             break
     return r
